@@ -968,6 +968,29 @@ func applySwaps(actions []*balancer.SwapNodeAction, cur map[int64]model.ShardMet
 				}
 			}
 		}
+		// the same swap when the member's address was refreshed from the cluster configuration after the
+		// balancer took its snapshot (the shard controller does that at every election): `From` still names
+		// the member (same identifier), so exactly that member must go
+		if !bad && a.From.Name != nil && *a.From.Name != "" {
+			ref := smd.Clone()
+			for i := range ref.Ensemble {
+				if ref.Ensemble[i].GetIdentifier() == a.From.GetIdentifier() {
+					ref.Ensemble[i].Internal += "0"
+					ref.Ensemble[i].Public += "0"
+				}
+			}
+			ids := ensIDs(controllers.VerifC19SwapEnsemble(ref, a.From, a.To).Ensemble)
+			cnt.add("swaps_applied_with_refreshed_member_address", 1)
+			gone := true
+			for _, id := range ids {
+				if id == a.From.GetIdentifier() {
+					gone = false
+				}
+			}
+			if len(ids) != rf(a.Shard) || !gone {
+				out = append(out, viol{"swap:member-with-refreshed-address-not-replaced", desc + fmt.Sprintf(": the member's address had been refreshed since the proposal was computed; ensemble afterwards %v (rf %d)", ids, rf(a.Shard))})
+			}
+		}
 		cur[a.Shard] = after
 	}
 	return out
